@@ -207,7 +207,8 @@ class Engine:
 
     # ============================================================ heap
     SORTS = {'int': T.I, 'bool': T.B, 'bytes': T.Bytes, 'str': T.S, 'dyn': T.Val,
-             'list': T.I, 'struct': T.SF, 'rx': T.RX, 'kw': T.Kw, 'conf': T.Conf, 'meth': T.S, 'cls': T.I, 'varargs': T.I}
+             'list': T.I, 'struct': T.SF, 'rx': T.RX, 'kw': T.Kw, 'conf': T.Conf, 'meth': T.S, 'cls': T.I, 'varargs': T.I,
+             'arrbool': T.AB, 'arrint': T.AI}
 
     def kind_sort(self, kind):
         if kind.startswith('ref:') or kind.startswith('func:'):
@@ -235,6 +236,10 @@ class Engine:
             return VKw(z)
         if kind == 'conf':
             return VConf(z)
+        if kind in ('arrbool', 'arrint'):
+            v = V()
+            v.kind, v.z = kind, z
+            return v
         if kind == 'cls':
             return VClassSym(z)
         if kind == 'varargs':       # *vargs: an opaque tuple that is only passed along
@@ -333,7 +338,10 @@ class Engine:
             return VHeapDict(obj.z, '%s.%s' % (owner, attr), kk, vk)
         if kind == 'meth':
             return VFunc('methsel', obj, z3.Select(st.heap['%s.%s' % (owner, attr)], obj.z), attr)
-        return self.wrap(kind, z3.Select(st.heap['%s.%s' % (owner, attr)], obj.z))
+        val = z3.Select(st.heap['%s.%s' % (owner, attr)], obj.z)
+        if getattr(self, 'tv_mode', False):
+            val = zsimp(val)        # concrete field tables: read the stored constant
+        return self.wrap(kind, val)
 
     def write_attr(self, st, obj, attr, v):
         owner, kind = self.attr_kind(obj.cls, attr)
@@ -626,6 +634,10 @@ class Engine:
             bad = zsimp(z3.Or(cx, cy))
             if not is_false(bad):
                 raises.append((bad, 'TypeError'))
+            if y.eq(T.bempty):
+                return VBytes(x), raises
+            if x.eq(T.bempty):
+                return VBytes(y), raises
             return VBytes(T.bconcat(x, y)), raises
         if isinstance(op, ast.Mult) and (isinstance(a, VBytes) or isinstance(b, VBytes)):
             s, n = (a, b) if isinstance(a, VBytes) else (b, a)
